@@ -10,6 +10,7 @@ import (
 	"compress/lzw"
 	"compress/zlib"
 	"encoding/binary"
+	"hash/crc32"
 	"image"
 	"image/color"
 	"image/gif"
@@ -168,6 +169,146 @@ func encodeBMP(rng *hlib.Rand, w, h int, paletted bool) []byte {
 	return b
 }
 
+// ownPNG writes a non-interlaced PNG with the filter type of every row FORCED (filt 0..4; 5 = a random type
+// per row, 6 = Paeth on the last row only), so that every (filter, bytes-per-pixel, width) combination of
+// std/png's filter code — incl. the SIMD variants and their tails — is reached, which Go's adaptive encoder
+// does not guarantee. ct = PNG colour type (0, 2, 3, 4, 6), depth 8 or 16 (8 for ct 3).
+func ownPNG(rng *hlib.Rand, w, h, ct, depth, filt int) []byte {
+	ch := map[int]int{0: 1, 2: 3, 3: 1, 4: 2, 6: 4}[ct]
+	bpp := ch * depth / 8
+	stride := w * bpp
+	raw := make([]byte, 0, (stride+1)*h)
+	prev := make([]byte, stride)
+	for y := 0; y < h; y++ {
+		cur := rng.Bytes(stride)
+		if rng.Chance(1, 3) { // smooth rows make the predictors interesting
+			for i := range cur {
+				cur[i] = byte(i*7 + y*3)
+			}
+		}
+		f := filt
+		switch filt {
+		case 5:
+			f = rng.Intn(5)
+		case 6:
+			f = rng.Intn(4)
+			if y == h-1 {
+				f = 4
+			}
+		}
+		raw = append(raw, byte(f))
+		for i := 0; i < stride; i++ {
+			var a, b, c int
+			if i >= bpp {
+				a = int(cur[i-bpp])
+				c = int(prev[i-bpp])
+			}
+			b = int(prev[i])
+			var pred int
+			switch f {
+			case 1:
+				pred = a
+			case 2:
+				pred = b
+			case 3:
+				pred = (a + b) / 2
+			case 4:
+				pa, pb, pc := abs(b-c), abs(a-c), abs(a+b-2*c)
+				if pa <= pb && pa <= pc {
+					pred = a
+				} else if pb <= pc {
+					pred = b
+				} else {
+					pred = c
+				}
+			}
+			raw = append(raw, byte(int(cur[i])-pred))
+		}
+		prev = cur
+	}
+	var z bytes.Buffer
+	zw, _ := zlib.NewWriterLevel(&z, []int{zlib.NoCompression, zlib.BestSpeed, zlib.DefaultCompression}[rng.Intn(3)])
+	zw.Write(raw)
+	zw.Close()
+	var out bytes.Buffer
+	out.WriteString("\x89PNG\r\n\x1a\n")
+	chunk := func(typ string, data []byte) {
+		var l [4]byte
+		binary.BigEndian.PutUint32(l[:], uint32(len(data)))
+		out.Write(l[:])
+		out.WriteString(typ)
+		out.Write(data)
+		c := crc32.NewIEEE()
+		c.Write([]byte(typ))
+		c.Write(data)
+		binary.BigEndian.PutUint32(l[:], c.Sum32())
+		out.Write(l[:])
+	}
+	ihdr := make([]byte, 13)
+	binary.BigEndian.PutUint32(ihdr[0:], uint32(w))
+	binary.BigEndian.PutUint32(ihdr[4:], uint32(h))
+	ihdr[8], ihdr[9] = byte(depth), byte(ct)
+	chunk("IHDR", ihdr)
+	if ct == 3 {
+		chunk("PLTE", rng.Bytes(3*256))
+	}
+	zb := z.Bytes()
+	for len(zb) > 0 { // several IDAT chunks, also 1-byte ones
+		n := len(zb)
+		if rng.Chance(1, 2) {
+			n = 1 + rng.Intn(len(zb))
+		}
+		chunk("IDAT", zb[:n])
+		zb = zb[n:]
+	}
+	chunk("IEND", nil)
+	return out.Bytes()
+}
+
+func abs(x int) int {
+	if x < 0 {
+		return -x
+	}
+	return x
+}
+
+// rawLZMA2StoredThenLZMA builds a raw LZMA2 stream (std/lzma with QUIRK_FORMAT_EXTENSION = LZMA2, dictionary
+// 64 KiB) whose first chunk is STORED (control 0x01) and is followed by an LZMA chunk WITHOUT a dictionary
+// reset (control 0xC0: state reset + new properties) — what liblzma emits after incompressible data, but
+// here with a stored chunk of any small size, so that a destination can fill up exactly at its last byte.
+// The LZMA chunk comes from `xz --format=raw`: compressed against an empty dictionary, it never refers to
+// the bytes before it, so prepending a stored chunk keeps it valid.
+func rawLZMA2StoredThenLZMA(rng *hlib.Rand, xzPath string) ([]byte, string) {
+	var text bytes.Buffer
+	words := []string{"the ", "quick ", "brown ", "fox ", "wuffs ", "\n", "0123456789", "abcabcabc"}
+	n := 40 + rng.Intn(1500)
+	for text.Len() < n {
+		text.WriteString(words[rng.Intn(len(words))])
+	}
+	raw := runTool(xzPath, text.Bytes(), "-c", "-T1", "--format=raw", "--lzma2=dict=64KiB")
+	if len(raw) < 7 || raw[0] < 0xE0 {
+		return nil, ""
+	}
+	k := 1 + rng.Intn(700)
+	switch rng.Intn(4) {
+	case 0:
+		k = 320
+	case 1:
+		k = 1 + rng.Intn(4)
+	}
+	stored := rng.Bytes(k)
+	out := []byte{0x01, byte((k - 1) >> 8), byte(k - 1)}
+	out = append(out, stored...)
+	if rng.Chance(1, 3) { // a second stored chunk, no dictionary reset
+		k2 := 1 + rng.Intn(40)
+		out = append(out, 0x02, byte((k2-1)>>8), byte(k2-1))
+		out = append(out, rng.Bytes(k2)...)
+	}
+	out = append(out, 0xC0|(raw[0]&0x1F))
+	out = append(out, raw[1:]...)
+	return out, "quirks=0x4CE85401:0x0802"
+}
+
 func runTool(tool string, in []byte, args ...string) []byte {
 	cmd := exec.Command(tool, args...)
 	cmd.Stdin = bytes.NewReader(in)
@@ -301,6 +442,14 @@ func validInputs(r *hlib.Run, rng *hlib.Rand, have map[string]bool, maxPayload, 
 			add("jpeg", "go-jpeg", b.Bytes(), "")
 		}
 		add("bmp", "own-bmp", encodeBMP(rng, w, h, i%2 == 1), "")
+		{
+			// forced PNG filters: every colour type / depth, widths around the SIMD chunk sizes, Paeth on the last row
+			cts := [][2]int{{2, 8}, {6, 8}, {0, 8}, {4, 8}, {3, 8}, {2, 16}, {6, 16}, {0, 16}, {4, 16}}
+			cd := cts[i%len(cts)]
+			pw, ph := 1+rng.Intn(24), 1+rng.Intn(6)
+			add("png", "own-png-forced-filter", ownPNG(rng, pw, ph, cd[0], cd[1], 1+rng.Intn(6)), "")
+			add("png", "own-png-rgb8-paeth", ownPNG(rng, 1+rng.Intn(12), 2+rng.Intn(3), 2, 8, 4+2*rng.Intn(2)), "")
+		}
 	}
 	// external tools
 	for _, t := range []struct {
@@ -330,6 +479,16 @@ func validInputs(r *hlib.Run, rng *hlib.Rand, have map[string]bool, maxPayload, 
 				continue
 			}
 			add(t.codec, t.name, out, "")
+		}
+	}
+	if path := toolPath("xz"); path != "" {
+		n := perKind
+		for i := 0; i < n; i++ {
+			if d, opts := rawLZMA2StoredThenLZMA(rng, path); d != nil {
+				add("lzma", "own-lzma2-stored-then-lzma", d, opts)
+			} else {
+				r.Count("skipped:tool-failed:own-lzma2")
+			}
 		}
 	}
 	// repository test data
